@@ -33,6 +33,10 @@ pub struct RcCase {
     pub policy: Policy,
     pub retry_on_reconnect: bool,
     pub predicate: bool,
+    /// run all requests at once (on a clone and on a second service of the same layer) instead of
+    /// one after the other
+    #[serde(default)]
+    pub concurrent: bool,
     /// sequential requests; per request a script of (latency ms, outcome: 0 ok, 1 reconnectable, 2 other error)
     pub requests: Vec<Vec<(u64, u8)>>,
 }
@@ -55,8 +59,9 @@ fn case_strategy(_tier: Tier) -> BoxedStrategy<RcCase> {
         prop::bool::weighted(0.75),
         any::<bool>(),
         prop::collection::vec(script, 1..=3),
+        prop::bool::weighted(0.4),
     )
-        .prop_map(|(max_attempts, policy, retry_on_reconnect, predicate, mut requests)| {
+        .prop_map(|(max_attempts, policy, retry_on_reconnect, predicate, mut requests, concurrent)| {
             if max_attempts.is_none() {
                 // unlimited attempts: make every script end in a success so the case terminates
                 for s in requests.iter_mut() {
@@ -68,6 +73,7 @@ fn case_strategy(_tier: Tier) -> BoxedStrategy<RcCase> {
                 policy,
                 retry_on_reconnect,
                 predicate,
+                concurrent,
                 requests,
             }
         })
@@ -166,36 +172,88 @@ async fn interp(case: &RcCase) -> Verdict {
 
     let mut any_two_retries = false;
     let mut any_terminal = false;
+    // ---- execution: sequential requests, or all of them in flight at once on clones of the service
+    let n = case.requests.len();
+    let mut tasks: Vec<usize> = vec![];
+    let mut mids: Vec<Option<u64>> = vec![None; n];
+    if case.concurrent && n > 1 {
+        let mut second = layer.layer(inner.clone());
+        for i in 0..n {
+            let req = Req {
+                id: i as u32,
+                key: 0,
+                tag: 0x4EC0 + i as u64,
+            };
+            // alternate between a clone of the first service and a second service of the same layer
+            let fut = if i % 2 == 0 {
+                let mut c = svc.clone();
+                let _ = futures::future::poll_fn(|cx| c.poll_ready(cx)).await;
+                c.call(req)
+            } else {
+                let _ = futures::future::poll_fn(|cx| second.poll_ready(cx)).await;
+                second.call(req)
+            };
+            tasks.push(sim.spawn_call(fut, |r| match r {
+                Ok(resp) => Outcome::Ok {
+                    serial: resp.serial,
+                    req: resp.req,
+                },
+                Err(e) => Outcome::Other(format!("{e}")),
+            }));
+        }
+        sim.settle().await;
+        let mut guard = 0;
+        while tasks.iter().any(|&t| sim.state(t) == TaskState::Live) {
+            sim.tick().await;
+            guard += 1;
+            if guard > 6_000 {
+                violations.push("concurrent requests did not all resolve within 6000 ms".to_string());
+                break;
+            }
+        }
+    } else {
+        for i in 0..n {
+            let req = Req {
+                id: i as u32,
+                key: 0,
+                tag: 0x4EC0 + i as u64,
+            };
+            let _ = futures::future::poll_fn(|cx| svc.poll_ready(cx)).await;
+            let fut = svc.call(req.clone());
+            let task = sim.spawn_call(fut, |r| match r {
+                Ok(resp) => Outcome::Ok {
+                    serial: resp.serial,
+                    req: resp.req,
+                },
+                Err(e) => Outcome::Other(format!("{e}")),
+            });
+            tasks.push(task);
+            sim.settle().await;
+            let mut guard = 0;
+            while sim.state(task) == TaskState::Live {
+                // sample the published state while nothing is running (i.e. during a backoff sleep)
+                if inner.shared.in_flight() == 0 && state.state() == ConnectionState::Connected {
+                    mids[i].get_or_insert(sim::now());
+                }
+                sim.tick().await;
+                guard += 1;
+                if guard > 3_000 {
+                    violations.push(format!("request {i} did not resolve within 3000 ms"));
+                    break;
+                }
+            }
+        }
+    }
+    let sequential = !(case.concurrent && n > 1);
+
     for (i, script) in case.requests.iter().enumerate() {
         let req = Req {
             id: i as u32,
             key: 0,
             tag: 0x4EC0 + i as u64,
         };
-        let _ = futures::future::poll_fn(|cx| svc.poll_ready(cx)).await;
-        let fut = svc.call(req.clone());
-        let task = sim.spawn_call(fut, |r| match r {
-            Ok(resp) => Outcome::Ok {
-                serial: resp.serial,
-                req: resp.req,
-            },
-            Err(e) => Outcome::Other(format!("{e}")),
-        });
-        sim.settle().await;
-        let mut guard = 0;
-        let mut mid_sleep_connected: Option<u64> = None;
-        while sim.state(task) == TaskState::Live {
-            // sample the published state while nothing is running (i.e. during a backoff sleep)
-            if inner.shared.in_flight() == 0 && state.state() == ConnectionState::Connected {
-                mid_sleep_connected.get_or_insert(sim::now());
-            }
-            sim.tick().await;
-            guard += 1;
-            if guard > 3_000 {
-                violations.push(format!("request {i} did not resolve within 3000 ms"));
-                break;
-            }
-        }
+        let task = tasks[i];
+        let mid_sleep_connected = mids[i];
         let snap = log.snapshot();
         let enters: Vec<(u64, u64)> = snap
             .iter()
@@ -291,7 +349,7 @@ async fn interp(case: &RcCase) -> Verdict {
                         violations.push(format!("request {i}: attempt {k} succeeded but was not returned"));
                     }
                 }
-                if state.state() != ConnectionState::Connected {
+                if sequential && i + 1 == n && state.state() != ConnectionState::Connected {
                     violations.push(format!(
                         "request {i} succeeded but the published state is {:?}",
                         state.state()
@@ -348,6 +406,9 @@ async fn interp(case: &RcCase) -> Verdict {
     }
     if case.predicate {
         classes.push("predicate");
+    }
+    if !sequential {
+        classes.push("concurrent_requests_one_layer");
     }
     Verdict {
         violations,
